@@ -433,8 +433,11 @@ class Runner(object):
                     m = [e for e in en if sel in json.dumps(w.describe(e))]
                     if not m:
                         self.script_failed = [n, sel, [w.describe(e) for e in en]]
-                        break
-                    choice = ('deliver', m[0])
+                        case = dict(case, script=None)
+                    else:
+                        choice = ('deliver', m[0])
+            if choice is not None:
+                pass
             elif und and (not en or self.rng.random() < case['tick_bias']):
                 nxt = min(j.execute_at for j in und)
                 dt = int((nxt - w.now()).total_seconds())
@@ -533,24 +536,58 @@ def compare(ctx, runner):
 
 # ----------------------------------------------------------------------------------- monitors
 def taint_index(runner):
-    """first step at which the timeout timer fired on an incomplete t1 that still had outstanding work (a
-    pending continue/complete job, a start still to come because the task is IDLE under pause-before, or a
-    running action that the timer did not end), or at which t1 was
-    force-failed while a policy job of it was pending: after that a stale job / late result may act
-    on a task that has moved on (known findings)."""
+    """Where a run leaves the orderly protocol "one outstanding piece of work at a time", and how.  The trace-level
+    monitors name this cause in their signature (`via`), so that every hit is tied to a specific defect:
+
+      stale-job-on-moved-on-task   a continue / complete job acted on a task that was not DELAYED any more (fixed by
+                                   /repo 831643dc: must never happen again — it dominates every other cause)
+      forced-failure-with-pending-job  the task was force-failed (ill-typed parameter) while a policy job was pending
+      timer-on-idle-task           the timeout timer fired on a task left IDLE by pause-before (the timer is armed
+                                   although the start was postponed)
+      timer-on-delayed-task        the timer fired on a task DELAYED by wait-before / wait-after / retry and the retry (or
+                                   wait-after) policy re-delayed it: the job of the earlier delay is still pending and,
+                                   the task being DELAYED again, still honoured (the 831643dc guard only checks DELAYED)
+      job-for-another-delay        (fallback) a continue / complete job acted on a task that IS DELAYED, but by another
+                                   policy than the one that scheduled the job
+      late-result-after-timeout    the result of the attempt the timer had failed was accepted by the DELAYED task
+    """
     prev = runner.steps[0]['obs']
+    origins = []           # parallel to obs['jobs'] (creation order): which policy scheduled the job
+    first = (None, None)
     for i, st in enumerate(runner.steps[1:], 1):
         o = st['obs']
         ev = st['ev']
-        if ev and ev[0] == 'fire' and prev['jobs'][ev[1]][0] == 'timeout' and prev['st'] not in COMPLETED:
-            others = [j for k, j in enumerate(prev['jobs']) if k != ev[1] and j[0] in ('continue', 'complete')]
-            running = [a for a in prev['acts'] if a[0] is None]
-            if others or prev['st'] == 'IDLE' or (running and o['st'] not in COMPLETED):
-                return i, 'timeout-with-outstanding-work'
+        cause = None
+        if ev and ev[0] == 'fire' and ev[1] < len(origins):
+            org = origins.pop(ev[1])
+            kind = prev['jobs'][ev[1]][0]
+            acted = (o['st'] != prev['st']) or (len(o['acts']) != len(prev['acts'])) or (o['msg'] != prev['msg'])
+            if kind in ('continue', 'complete'):
+                if prev['st'] != 'DELAYED':
+                    if acted:
+                        return i, 'stale-job-on-moved-on-task'
+                elif prev['msg'] != org:
+                    cause = 'job-for-another-delay'
+            elif kind == 'timeout' and prev['st'] == 'IDLE':
+                cause = 'timer-on-idle-task'
+            elif kind == 'timeout' and prev['st'] == 'DELAYED' and o['st'] == 'DELAYED':
+                cause = 'timer-on-delayed-task'
+        if ev and ev[0] == 'result' and prev['st'] == 'DELAYED' and (o['st'] != prev['st'] or o['retryNo'] != prev['retryNo']
+                                                                     or o['jobs'] != prev['jobs']):
+            cause = 'late-result-after-timeout'
         if o['msg'] == 'forced' and prev['msg'] != 'forced' and [j for j in o['jobs'] if j[0] in ('continue', 'complete')]:
-            return i, 'forced-failure-with-pending-job'
+            cause = 'forced-failure-with-pending-job'
+        for j in o['jobs'][len(origins):]:
+            if j[0] == 'continue':
+                origins.append('waitBefore' if (ev and ev[0] == 'startNew') else 'retry')
+            elif j[0] == 'complete':
+                origins.append('waitAfter')
+            else:
+                origins.append('timeout')
+        if cause and first[0] is None:
+            first = (i, cause)
         prev = o
-    return None, None
+    return first
 
 
 def monitors(runner):
@@ -583,6 +620,7 @@ def monitors(runner):
     stop_after = None          # (attempt index, reason) after which no further attempt may start
     retry_sched = {}           # number of attempts at scheduling time -> clock when the retry was scheduled
     paused_by_policy = False
+    wa_superseded = False
     for i, st in enumerate(steps[1:], 1):
         o = st['obs']
         ev = st['ev']
@@ -668,6 +706,11 @@ def monitors(runner):
             else:
                 if first_completion_clock is None:
                     first_completion_clock = st['clock']
+                # the timeout supersedes a success that was still waiting in its wait-after delay, and cuts a
+                # wait-after delay that was already running short (the timeout covers the delays)
+                stop_after = None
+                if prev['waSkip']:
+                    wa_superseded = True
                 ok = (o['st'] == 'ERROR' and o['msg'] == 'timeout') or \
                      (o['st'] == 'DELAYED' and o['msg'] == 'retry' and retry is not None) or \
                      (o['st'] == 'DELAYED' and o['msg'] == 'waitAfter' and nat(p['waitAfter']) > 0) or \
@@ -676,7 +719,8 @@ def monitors(runner):
                     hits.append(('timeout-did-not-fail-incomplete-task', {'before': prev['st'], 'after': o['st'], 'msg': o['msg']}))
         # --- wait-after: follow-ups postponed
         if o['followUps'] > prev['followUps']:
-            if valid and first_completion_clock is not None and st['clock'] - first_completion_clock < nat(p['waitAfter']):
+            if valid and not wa_superseded and first_completion_clock is not None \
+                    and st['clock'] - first_completion_clock < nat(p['waitAfter']):
                 hits.append(('wait-after-not-respected', {'waited': st['clock'] - first_completion_clock, 'delay': nat(p['waitAfter'])}))
             if o['followUps'] > 1:
                 hits.append(('follow-up-started-twice', {'count': o['followUps'], 'event': st['desc']}))
